@@ -20,6 +20,7 @@ import datetime
 from hypothesis import strategies as st
 
 from vf.core import hyp, lib, pool
+from vf.core.lib import library_exceptions_are_findings as _guard
 from vf.core.stats import Finding, Stats
 from vf.gen import textgen
 
@@ -535,6 +536,7 @@ def _check_block(case):
     return findings
 
 
+@_guard
 def check_case(case):
     kind = case['kind']
     if kind == 'value':
